@@ -260,25 +260,112 @@ def run_hist_batch(ck, harness, model):
         if so is None or sm is None:
             ck.add_diff({"mode": "hist", "line": c["line"][:400]}, mo[:400], (ho or "")[:400])
             continue
-        # the model stops at the first read that does not return normally
-        stop = next((i for i, x in enumerate(so) if not x.startswith("ok")), None)
-        cmp_h = so if stop is None else so[:stop + 1]
-        if cmp_h != sm:
+        # the model follows the frame through failing reads too (Csv/StateDefs.v): every outcome and the final frame
+        if so != sm:
             ck.add_diff({"mode": "hist", "line": c["line"][:400]}, mo[:400], (ho or "")[:400])
-        got = cc.parse_out("OK " + " ".join(t for t in ho.split(" ")[2:] if not t.startswith("DOMS=")))
-        if stop is None:
-            fm = " ".join(t for t in mo.split(" ")[2:])
-            fh = " ".join(t for t in ho.split(" ")[2:] if not t.startswith("DOMS="))
-            if cc.canon("OK " + fh) != cc.canon("OK " + fm):
-                ck.add_diff({"mode": "hist", "line": c["line"][:400]}, mo[:600], (ho or "")[:600], "final frames differ")
-            # outcome oracle on the frame after the last read
-            last = steps[-1][0]
-            n = int(so[-1][2:])
-            got["ret"] = n
-            v = judge("xrff" if last == "x" else "csv", got)
+        fm = " ".join(t for t in mo.split(" ")[2:])
+        fh = " ".join(t for t in ho.split(" ")[2:] if not t.startswith("DOMS="))
+        if cc.canon("OK " + fh) != cc.canon("OK " + fm):
+            ck.add_diff({"mode": "hist", "line": c["line"][:400]}, mo[:600], (ho or "")[:600], "final frames differ")
+        # outcome oracle on the frame after the last read when that read returned normally
+        if so and so[-1].startswith("ok"):
+            got = cc.parse_out("OK " + fh)
+            got["ret"] = int(so[-1][2:])
+            v = judge("xrff" if steps[-1][0] == "x" else "csv", got)
             if v:
                 ck.add_violation("hist:" + v[0], v[1], replay)
     ck.coverage["hist_outcomes"] = hist
+
+
+def gen_probh_cases(ck):
+    """histories on ONE src_problem object: construction from a stream, further reads into data() (also failing
+    ones), setup_symbols() after successful and after failed reads"""
+    rng = ck.rng
+    n = 6 if ck.thorough else 1
+    good = ["1,2,3\n4,5,6\n7,8,9\n", "y,a,b\n1,2,x\n3,4,z\n5,6,x\n", "1,2,,4\n5,6,,8\n", "u,1,2\nv,3,4\nu,5,6\n",
+            "1;2\n3;4\n", "1,ab,cd\n2,ef,gh\n3,ij,kl\n"]
+    bad = ["1,2\n3,x\n", "1\n2\n", "", "1,2,3\n4,5\n6\n", "1,2\n3,4,5,6\n", "1,,3\n4,5,6\n", "a,1\na,2\n", "1,2\n1e999,3\n"]
+
+    def op_read():
+        if rng.random() < 0.25:
+            return "x/%s" % cc.hx(rng.choice(XR_DOCS))
+        txt = rng.choice(good + bad)
+        return "r/%s/%d/%d/0/%d" % (cc.hx(txt), rng.choice([0, 44, 44]), rng.choice([-1, 0, 1]), rng.choice([0, 0, 1, -1, 2 ** 64 - 1]))
+    cases = []
+    fixed = [["n/%s/0" % cc.hx(good[0]), "s/0"],
+             ["n/%s/0" % cc.hx(good[2]), "s/0"],
+             ["n/%s/0" % cc.hx(good[0]), "r/%s/44/0/0/0" % cc.hx(bad[0]), "s/0"],
+             ["n/%s/0" % cc.hx(good[0]), "r/%s/44/0/0/0" % cc.hx(good[1]), "s/1"],
+             ["n/%s/0" % cc.hx(good[1]), "x/%s" % cc.hx(XR_DOCS[1]), "s/0"],
+             ["n/%s/0" % cc.hx(good[0]), "r/%s/44/0/0/0" % cc.hx(bad[1]), "s/0", "r/%s/44/0/0/0" % cc.hx(good[0]), "s/0"],
+             ["n/%s/0" % cc.hx(bad[1]), "s/0"]]
+    for ops in fixed:
+        cases.append({"mode": "probh", "line": "probh fixed %d %s" % (len(ops), " ".join(ops))})
+    for _ in range(150 * n):
+        ops = ["n/%s/%d" % (cc.hx(rng.choice(good + good + bad)), rng.randint(0, 1))]
+        for _ in range(rng.randint(1, 4)):
+            ops.append(op_read() if rng.random() < 0.6 else "s/%d" % rng.randint(0, 1))
+        if rng.random() < 0.5:
+            ops.append("s/%d" % rng.randint(0, 1))
+        cases.append({"mode": "probh", "line": "probh fixed %d %s" % (len(ops), " ".join(ops))})
+    return cases
+
+
+def run_probh_batch(ck, harness, model):
+    if ck.replay_path:
+        rp = json.load(open(ck.replay_path))
+        if rp.get("mode") != "probh":
+            return
+        cases = [{"mode": "probh", "line": rp["line"]}]
+    else:
+        cases = gen_probh_cases(ck)
+    hl = [c["line"] for c in cases]
+    hout, crashes = cc.pc.run_harness_resilient(harness, hl)
+    ml = [hist_model_line(l, o) for l, o in zip(hl, hout)]
+    rc, mout, merr = vv.run_lines(model, "\n".join(ml) + "\n")
+    if rc != 0 or len(mout) != len(ml):
+        raise vv.BuildError("model driver failed: rc=%s %s" % (rc, merr[:500]))
+    hist = {}
+    for k, c in enumerate(cases):
+        ck.count()
+        ck.nontriv(c["line"])
+        ho, mo = hout[k], mout[k]
+        atexit = ho is not None and ho.startswith("CRASH-AT-EXIT ")
+        if atexit:
+            ho = ho[len("CRASH-AT-EXIT "):]
+        ops = c["line"].split(" ")[3:]
+        texts = [(cc.unhx(o.split("/")[1]).decode("latin1")[:200] if o[0] in "nrx" else o) for o in ops]
+        replay = {"mode": "probh", "line": c["line"], "impl": ho, "model": mo, "ops": ops, "op_texts": texts}
+        if ho is None or ho.startswith("CRASH"):
+            ck.add_violation("probh:sanitizer:%s" % crash_site(crashes.get(k, "")),
+                             "undefined behaviour in a history on one src_problem object",
+                             dict(replay, sanitizer=crashes.get(k, "")[-2500:]))
+            continue
+        if atexit:
+            ck.add_violation("probh:leak", "the sanitizers report at exit after histories on src_problem objects",
+                             dict(replay, sanitizer=crashes.get(k, "")[-2000:]))
+        fh = " ".join(t for t in ho.split(" ") if not t.startswith("DOMS="))
+        if cc.canon(fh) != cc.canon(mo):
+            ck.add_diff({"mode": "probh", "line": c["line"][:400]}, mo[:700], fh[:700])
+        so = hist_outcomes(ho) or []
+        key = " ".join(o[0] + ":" + x.split(":")[0].rstrip("0123456789") for o, x in zip(ops, so))
+        hist[key] = hist.get(key, 0) + 1
+        # the symbol set must match the frame whenever the last data operation succeeded and the symbols were set
+        # up after it (construction, or setup_symbols): as many variables as inputs, ids 0..n-1, no variable out of range
+        last_read = max([i for i, o in enumerate(ops) if o[0] in "nrx"], default=None)
+        last_setup = max([i for i, o in enumerate(ops) if o[0] in "ns" and i < len(so) and so[i].startswith("ok")], default=None)
+        if last_read is not None and last_setup is not None and last_setup >= last_read and last_read < len(so) \
+                and so[last_read].startswith("ok") and " NONE" not in ho:
+            toks = dict(t.split("=", 1) for t in ho.split(" ") if "=" in t)
+            vs = cc.items(toks.get("VARS", ""), ";")
+            ids = [int(v.split(":")[1]) for v in vs]
+            nvar = int(toks.get("VARIABLES", "0"))
+            nonempty = toks.get("EX", "") != ""
+            if ids != list(range(len(ids))) or (nonempty and nvar != len(ids)) or "OOB" in toks.get("RUN", ""):
+                ck.add_violation("probh:symbols-mismatch",
+                                 "after a successful read and set-up the variables %s do not match the %d inputs of the examples"
+                                 % (ids, nvar), replay)
+    ck.coverage["probh_outcomes"] = dict(sorted(hist.items(), key=lambda x: -x[1])[:25])
 
 
 def gen_cases(ck):
@@ -718,6 +805,7 @@ def run(ck):
     ck.coverage["xrff_zero_returns"] = zero_returns
     run_path_batch(ck, harness, model)
     run_hist_batch(ck, harness, model)
+    run_probh_batch(ck, harness, model)
     if ck.thorough and not ck.replay_path:
         run_fuzzer(ck, harness, [c["line"] for c in cases[:600]], 150)
     import os
